@@ -41,6 +41,7 @@ from cnfgen.clitools.cmdline import paginate_or_redirect_stdout
 from cnfgen.clitools.cmdline import setup_SIGINT
 from cnfgen.clitools.cmdline import CLIParser, CLIError, CLIHelpFormatter
 from cnfgen.clitools.cmdline import SeedAction
+from cnfgen.clitools.cmdline import early_output_format
 
 from cnfgen.clitools.cmdline import get_formula_helpers
 from cnfgen.clitools.cmdline import get_transformation_helpers
@@ -476,7 +477,10 @@ def cli(argv=None, mode='output'):
 
     # Be lenient on non string arguments
     argv = [str(x) for x in argv]
-    with msg_prefix('c '):
+    # errors met while parsing are shielded by the comment marker of
+    # the format requested by the leading options, if any
+    comment_char = {'dimacs': 'c ', 'latex': '% ', 'opb': '* '}
+    with msg_prefix(comment_char[early_output_format(argv, 'dimacs')]):
         args, t_args = parse_command_line(argv, parser, t_parser)
 
     #  Determine output format
@@ -484,7 +488,6 @@ def cli(argv=None, mode='output'):
 
     # Correctly infer the comment character, useful to shield
     # the output.
-    comment_char = {'dimacs': 'c ', 'latex': '% ', 'opb': '* '}
     try:
         cprefix = comment_char[output_format]
     except KeyError as e:
